@@ -160,6 +160,14 @@ func lockName(v ssa.Value) (string, ssa.Value) {
 		if !ok {
 			return "", nil
 		}
+		if home, ok := lockHome[n]; ok {
+			// a lock inside a wrapper type: named after the one field that holds the wrapper
+			recv := x.X
+			if fa, ok := x.X.(*ssa.FieldAddr); ok {
+				recv = fa.X
+			}
+			return home, recv
+		}
 		return tname(n.Obj()) + "." + fieldName(x.X.Type(), x.Field), x.X
 	case *ssa.Global:
 		return "global:" + x.Name(), nil
